@@ -254,6 +254,32 @@ theorem C16_reopen (s : Redb) (h : Redb.Inv s) :
 
 /-! ### cloud -/
 
+/-- unfolding of `put_with_version` inside a transaction -/
+theorem cloud_putV_open (c : Cloud) (lg : Tab) (hp : c.poisoned = false) (hl : c.log = some lg)
+    (k : Key) (v : Nat) (x : Val) :
+    Cloud.putV c k v x =
+      (if Cloud.pendingLower lg k v then (c, .mismatch) else
+        match lookup c.loc k with
+        | none => ({ c with log := some (insert lg k (v, x)) }, .ok)
+        | some (v0, x0) =>
+          if v < v0 then (c, .mismatch)
+          else if v = v0 then (if x0 = x then (c, .ok) else (c, .mismatch))
+          else ({ c with log := some (insert lg k (v, x)) }, .ok)) := by
+  unfold Cloud.putV
+  simp only [hp, hl, Bool.false_eq_true, if_false]
+  by_cases hpl : Cloud.pendingLower lg k v = true
+  · simp only [hpl, if_true]
+  · simp only [hpl, Bool.false_eq_true, if_false]
+    cases lookup c.loc k with
+    | none => rfl
+    | some r0 => cases r0; rfl
+
+theorem cloud_get_open (c : Cloud) (lg : Tab) (hp : c.poisoned = false) (hl : c.log = some lg) (k : Key) :
+    (Cloud.get c k).2 = some (match lookup lg k with | some r => some r | none => lookup c.loc k) := by
+  unfold Cloud.get
+  simp only [hp, hl, Bool.false_eq_true, if_false]
+  cases lookup lg k <;> rfl
+
 /-- **C16_cloud_ryw**: inside a transaction, an accepted write that advances the key beyond the
     committed store (always the case for `put`/`delete`) is what `get` returns next, and accepted
     writes to other keys do not disturb it. -/
@@ -266,83 +292,116 @@ theorem C16_cloud_ryw (c : Cloud) (lg : Tab) (hp : c.poisoned = false) (hl : c.l
           (Cloud.get (Cloud.put c k x).1 k).2 = some (some (nv, x))) ∧
     (∀ k', k' ≠ k → (Cloud.get (Cloud.putV c k' v x).1 k).2 = (Cloud.get c k).2 ∨
         (Cloud.putV c k' v x).2 ≠ .ok) := by
-  have hadv : ∀ v, (∀ v0 x0, lookup c.loc k = some (v0, x0) → v0 < v) →
+  have hins : ∀ (k' : Key) (r : Rec),
+      (Cloud.get { c with log := some (insert lg k' r) } k).2 =
+        some (match lookup (insert lg k' r) k with | some r => some r | none => lookup c.loc k) :=
+    fun k' r => cloud_get_open { c with log := some (insert lg k' r) } _ hp rfl k
+  have hadv : ∀ v, (Cloud.putV c k v x).2 = .ok → (∀ v0 x0, lookup c.loc k = some (v0, x0) → v0 < v) →
       (Cloud.get (Cloud.putV c k v x).1 k).2 = some (some (v, x)) := by
-    intro v hv
-    unfold Cloud.putV
-    simp only [hp, hl, Bool.false_eq_true, if_false]
-    cases hloc : lookup c.loc k with
-    | none => simp [Cloud.get, lookup_insert_self]
-    | some r0 =>
-      obtain ⟨v0, x0⟩ := r0
-      have := hv v0 x0 hloc
-      have h1 : ¬ v < v0 := by omega
-      have h2 : ¬ v = v0 := by omega
-      simp [Cloud.get, h1, h2, lookup_insert_self]
-  refine ⟨fun _ hv => hadv v hv, ?_, ?_⟩
+    intro v hok hv
+    rw [cloud_putV_open c lg hp hl] at hok ⊢
+    by_cases hpl : Cloud.pendingLower lg k v = true
+    · simp [hpl] at hok
+    · simp only [hpl, Bool.false_eq_true, if_false] at hok ⊢
+      cases hloc : lookup c.loc k with
+      | none => simp only []; rw [hins, lookup_insert_self]
+      | some r0 =>
+        obtain ⟨v0, x0⟩ := r0
+        have := hv v0 x0 hloc
+        have h1 : ¬ v < v0 := by omega
+        have h2 : ¬ v = v0 := by omega
+        simp only [h1, h2, if_false]
+        rw [hins, lookup_insert_self]
+  refine ⟨fun hok hv => hadv v hok hv, ?_, ?_⟩
   · intro hok
     unfold Cloud.put at hok ⊢
     cases hn : nextVer ((lookup c.loc k).map (·.1)) with
     | none => simp [hn] at hok
     | some nv =>
       refine ⟨nv, rfl, ?_⟩
-      simp only []
-      apply hadv
+      simp only [hn] at hok ⊢
+      apply hadv _ hok
       intro v0 x0 hloc
       simp only [hloc, Option.map_some, nextVer] at hn
       split at hn
       · cases hn; omega
       · cases hn
   · intro k' hk
-    unfold Cloud.putV
-    simp only [hp, hl, Bool.false_eq_true, if_false]
-    have hins : ∀ (c' : Cloud) (r : Rec), c'.loc = c.loc → c'.poisoned = false →
-        c'.log = some (insert lg k' r) → (Cloud.get c' k).2 = (Cloud.get c k).2 := by
-      intro c' r h1 h2 h3
-      simp only [Cloud.get, hp, hl, h1, h2, h3, Bool.false_eq_true, if_false, lookup_insert_ne _ _ hk]
-      cases lookup lg k <;> rfl
-    cases lookup c.loc k' with
-    | none => left; exact hins _ _ rfl rfl rfl
-    | some r0 =>
-      obtain ⟨v0, x0⟩ := r0
-      simp only []
-      split
-      · right; simp
-      · split
+    rw [cloud_putV_open c lg hp hl]
+    by_cases hpl : Cloud.pendingLower lg k' v = true
+    · right; simp [hpl]
+    · simp only [hpl, Bool.false_eq_true, if_false]
+      have hfr : ∀ r, (Cloud.get { c with log := some (insert lg k' r) } k).2 = (Cloud.get c k).2 := by
+        intro r; rw [hins, cloud_get_open c lg hp hl, lookup_insert_ne _ _ hk]
+      cases lookup c.loc k' with
+      | none => left; exact hfr _
+      | some r0 =>
+        obtain ⟨v0, x0⟩ := r0
+        simp only []
+        split
+        · right; simp
         · split
-          · left; rfl
-          · right; simp
-        · left; exact hins _ _ rfl rfl rfl
+          · split
+            · left; rfl
+            · right; simp
+          · left; exact hfr _
 
-/-- "never lowers a version" for the store's *own view* inside a transaction (what `get`/`get_version`
-    answer): an accepted `put_with_version` never makes the version reported for any key smaller. -/
-def C16_cloud_view_mono : Prop :=
-  ∀ (c c' : Cloud) (k k' : Key) (v v' : Nat) (x x' : Val), c.poisoned = false →
-    (Cloud.get c k).2 = some (some (v, x)) → Cloud.putV c k' v' x' = (c', .ok) →
-    ∃ r, (Cloud.get c' k).2 = some (some r) ∧ v ≤ r.1
-
-/-- a transaction that has written `(k1, 5, aa)` -/
-def viewWit : Cloud := { loc := [], log := some [(0, (0, [7])), (1, (5, [0xaa]))], poisoned := false, sid := [7] }
-
-/-- **refuted** for the code as it is (finding F13): the check is against the local store only, so
-    `putv k1 3 bb` is accepted after `putv k1 5 aa` in the same transaction and `get_version k1` goes
-    from 5 to 3.  (The committed local store is not affected: `C16_mono`.) -/
-theorem C16_cloud_view_mono_false : ¬ C16_cloud_view_mono := by
-  intro h
-  obtain ⟨r, h1, h2⟩ := h viewWit (Cloud.putV viewWit 1 3 [0xbb]).1 1 1 5 3 [0xaa] [0xbb] rfl
-    (by decide) (by decide)
-  have hget : (Cloud.get (Cloud.putV viewWit 1 3 [0xbb]).1 1).2 = some (some (3, [0xbb])) := by decide
-  rw [hget] at h1
-  cases h1
-  exact absurd h2 (by decide)
-
-/-- what does hold (**partial**): a write to *another* key never changes the answer, and `put`/`delete`
-    — the only writes the signer's persister issues — always answer with the successor of the committed
-    version (`C16_cloud_ryw`), so a transaction made of `put`/`delete` never lowers its view. -/
-theorem C16_cloud_view_mono_partial (c : Cloud) (lg : Tab) (hp : c.poisoned = false) (hl : c.log = some lg)
-    (k k' : Key) (v : Nat) (x : Val) (hk : k' ≠ k) :
-    (Cloud.get (Cloud.putV c k' v x).1 k).2 = (Cloud.get c k).2 ∨ (Cloud.putV c k' v x).2 ≠ .ok :=
-  (C16_cloud_ryw c lg hp hl k v x).2.2 k' hk
+/-- **C16_cloud_view_mono** ("never lowers a version" for the store's *own view* inside a transaction,
+    since the F13 fix): an accepted `put_with_version` never makes the version that `get`/`get_version`
+    report for any key smaller. -/
+theorem C16_cloud_view_mono (c c' : Cloud) (k k' : Key) (v v' : Nat) (x x' : Val) (hp : c.poisoned = false)
+    (hget : (Cloud.get c k).2 = some (some (v, x))) (hput : Cloud.putV c k' v' x' = (c', .ok)) :
+    ∃ r, (Cloud.get c' k).2 = some (some r) ∧ v ≤ r.1 := by
+  cases hl : c.log with
+  | none => simp [Cloud.get, hp, hl] at hget
+  | some lg =>
+    by_cases hk : k' = k
+    · subst hk
+      rw [cloud_get_open c lg hp hl] at hget
+      rw [cloud_putV_open c lg hp hl] at hput
+      have hins : (Cloud.get { c with log := some (insert lg k' (v', x')) } k').2 = some (some (v', x')) := by
+        rw [cloud_get_open { c with log := some (insert lg k' (v', x')) } _ hp rfl, lookup_insert_self]
+      by_cases hpl : Cloud.pendingLower lg k' v' = true
+      · simp [hpl] at hput
+      · simp only [hpl, Bool.false_eq_true, if_false] at hput
+        -- the version reported before is the pending one if there is one, else the committed one
+        have hle : ∀ c'', c'' = { c with log := some (insert lg k' (v', x')) } →
+            (∀ v0 x0, lookup c.loc k' = some (v0, x0) → v0 < v') →
+            ∃ r, (Cloud.get c'' k').2 = some (some r) ∧ v ≤ r.1 := by
+          intro c'' hc hv
+          subst hc
+          refine ⟨(v', x'), hins, ?_⟩
+          cases hlg : lookup lg k' with
+          | some r =>
+            rw [hlg] at hget; simp only [Option.some.injEq] at hget; subst hget
+            have : Cloud.pendingLower lg k' v' = false := by simpa using hpl
+            simp only [Cloud.pendingLower, hlg, decide_eq_false_iff_not] at this
+            simp only; omega
+          | none =>
+            rw [hlg] at hget; simp only [Option.some.injEq] at hget
+            have := hv v x hget
+            simp only; omega
+        cases hloc : lookup c.loc k' with
+        | none =>
+          rw [hloc] at hput; simp only [Prod.mk.injEq, and_true] at hput
+          exact hle c' hput.symm (fun v0 x0 h0 => by rw [hloc] at h0; cases h0)
+        | some r0 =>
+          obtain ⟨v0, x0⟩ := r0
+          rw [hloc] at hput
+          simp only [] at hput
+          split at hput
+          · cases hput
+          · split at hput
+            · split at hput
+              · cases hput
+                exact ⟨(v, x), by rw [cloud_get_open c lg hp hl]; exact hget, Nat.le_refl _⟩
+              · cases hput
+            · simp only [Prod.mk.injEq, and_true] at hput
+              exact hle c' hput.symm (fun v0' x0' h0 => by rw [hloc] at h0; cases h0; omega)
+    · rcases (C16_cloud_ryw c lg hp hl k v' x').2.2 k' hk with h | h
+      · rw [hput] at h
+        exact ⟨(v, x), by rw [h]; exact hget, Nat.le_refl _⟩
+      · rw [hput] at h; exact absurd rfl h
 
 /-- every request except `commit` leaves the local store alone -/
 theorem C16_cloud_local_only_commit (c : Cloud) (op : Op) (h : op ≠ .commit) :
